@@ -33,11 +33,11 @@ checks = {
   note="Results are copied before the object is touched again (an earlier Bytes slice aliases the recycled buffer by design). The vec back end is used only on well-formed input with moderate coordinates.",
   technique="deterministic simulation: crash/restart at enumerated call indices with injected abort causes, reused object vs fresh object as reference model, tape shrinking and replay"),
 "C07": dict(level="exploration", ref="DESIGN.md §5 C07",
-  text="Two-party simulation over an intact byte channel: one abstract program (which may read selectors back and call Generator helpers, so it reacts to what it reads) is run against a Renderer and against an Encoder; after every call the selectors reported by both are compared modulo 64, at every styling-mode call boundary the stream is cut, the prefix decoded by the real decoder into a fresh Renderer whose selectors must equal what the Encoder reported at that point, and the final rasteriser logs and paints of the two pipelines are compared (bit-exact on the lattice; one program in five carries off-lattice numbers at the edges of the number forms and is compared within the format's quantisation). Topologies: direct, via bytes, either behind DestinationLogger, Encoder fresh or reused.",
+  text="Two-party simulation over an intact byte channel: one abstract program (which may read selectors back and call Generator helpers, so it reacts to what it reads) is run against a Renderer and against an Encoder; after every call the selectors reported by both are compared modulo 64, at every styling-mode call boundary the stream is cut, the prefix decoded by the real decoder into a fresh Renderer whose selectors must equal what the Encoder reported at that point, and the final rasteriser logs and paints of the two pipelines are compared (bit-exact on the lattice; one program in five carries off-lattice numbers at the edges of the number forms and is compared within the format's quantisation). Topologies: direct, via bytes, either behind DestinationLogger, Encoder fresh or reused; plus a relay hop (decoder -> second Encoder -> decoder -> Renderer): the relaying Encoder's selectors must equal those of the Renderer fed by the same decoder, and where the first trip carried every number exactly the second trip must render bit for bit like the direct pipeline.",
   note="No fault is injected: the property is stated for an intact channel. Weakest fit for this technique (see DESIGN.md §3); lattice arguments avoid codec rounding; gradient matrices computed by helpers are compared with 1e-5 relative tolerance.",
   technique="deterministic simulation: seeded histories through two pipeline topologies with stream cuts at every call boundary, lockstep state comparison, tape shrinking and replay"),
 "C18": dict(level="exploration", ref="DESIGN.md §4.3, §5 C18",
-  text="Seeded interleavings of 2-6 independent pipelines (decode/render/encode/disassemble/colour helpers/generator front ends) at Go-statement granularity: the check copies the tree, inserts a yield before every statement with go/ast, and a baton scheduler driven by the tape decides who runs (PCT-style change points or chaos). Shared, watched inputs: source bytes, palettes, gradient stops, option and transform tables spread into variadic parameters (all with spare capacity, watched up to cap), parsed mdicons.Path values, an initialised render.Gradient; pipelines may keep an Encoder/Renderer alive through two uses. Oracles: each task's result equals its solo result; hashes of all shared inputs and of every package-level variable (generated VerifGlobals, deep reflective hash) are unchanged after every scheduling slice. A second arm runs the same tape-scheduled interleavings in a -race build whose hand-overs the race detector cannot see (//go:norace polling on one P), so that any conflicting unsynchronised accesses by two pipelines are reported, deterministically, as C18.data-race.",
+  text="Seeded interleavings of 2-6 independent pipelines (decode/render/encode/disassemble/colour helpers/generator front ends) at Go-statement granularity: the check copies the tree, inserts a yield before every statement with go/ast, and a baton scheduler driven by the tape decides who runs (PCT-style change points or chaos). Shared, watched inputs: source bytes, palettes, gradient stops, option and transform tables spread into variadic parameters (all with spare capacity, watched up to cap), parsed mdicons.Path values, an initialised render.Gradient; pipelines may keep an Encoder/Renderer alive through two uses; long-lived Renderers borrow recording rasterisers from a shared pool through leases and hand them back between decodes (first decode often cut short inside a path), the <circle> elements of a parsed icon are a shared input. Oracles: each task's result equals its solo result; hashes of all shared inputs and of every package-level variable (generated VerifGlobals, deep reflective hash) are unchanged after every scheduling slice; no call reaches a pooled rasteriser through a lease that was handed back (C18.foreign-call). A second arm runs the same tape-scheduled interleavings in a -race build whose hand-overs the race detector cannot see (//go:norace polling on one P), so that any conflicting unsynchronised accesses by two pipelines are reported, deterministically, as C18.data-race.",
   note="Preemption granularity is the statement, not the memory access; in the normal arm a racy write that changes no result is invisible, which is what the race arm is for (it needs cgo for the -race build; without it the arm is skipped and the evidence says so). The schedule, not the race detector, is the source of every interleaving: the detector only monitors a deterministic execution.",
   technique="deterministic simulation: seeded scheduler over statement-level yields inserted into a scratch copy, solo-run reference results, global/input write detection, tape shrinking and replay"),
 }
